@@ -154,7 +154,7 @@ _SERVER = {}
 def _start_server():
     from mpservice.socket import SocketApplication, SocketServer
 
-    d = tempfile.mkdtemp(prefix='c18_', dir='/tmp')
+    d = tempfile.mkdtemp(prefix='c18_')
     _TMPDIRS.append(d)
     path = os.path.join(d, 'sock')
     seen = []
@@ -333,7 +333,7 @@ def run_pipe(spec):
 
     from vf.realproc import run_with_watchdog
 
-    d = tempfile.mkdtemp(prefix='c18p_', dir='/tmp')
+    d = tempfile.mkdtemp(prefix='c18p_')
     path = os.path.join(d, 'p')
     got = {'a': [], 'b': []}
     errs = []
